@@ -1535,10 +1535,17 @@ def execute(schedule, ctx):
                     return 1.0
 
             res = []
-            e = attempt(lambda: res.append(x.eval('f() + 1', locals={'f': f})))
+            # (a name of this object's own is looked up after the callback has returned: it still means this object's series)
+            own = next((nm_ for nm_ in d['index'] if nm_.isidentifier() and d['_' + nm_].dtype.kind == 'f' and ('names' not in d or nm_ in d['names'])), None)
+            own_vals = None if own is None else d['_' + own].copy()
+            e = attempt(lambda: res.append(x.eval('f() + 1' if own is None else f'f() * 0 + {own}', locals={'f': f})))
             ctx.probe('eval-with-a-function-that-calls-back:' + how)
             ctx.fault('callback-into-library')
-            ctx.check('C09', 'eval/expression-with-callback-evaluates', e is None and res and float(np.asarray(res[0])) == 2.0, {'exc': type(e).__name__ if e else None, 'how': how})
+            if own is None:
+                ok_ = e is None and res and float(np.asarray(res[0])) == 2.0
+            else:
+                ok_ = e is None and res and isinstance(res[0], np.ndarray) and RC.arrays_equal(np.asarray(res[0], dtype=float), own_vals.astype(float))
+            ctx.check('C11' if how == 'other_eval' else 'C09', 'eval/expression-with-callback-evaluates', ok_, {'exc': type(e).__name__ if e else None, 'how': how, 'own': own})
             if how in ('other_eval', 'self_eval') and 'r' in got:
                 ctx.check('C11', 'eval/nested-eval-sees-what-a-plain-eval-sees', got['r'] == want, {'nested': got['r'], 'plain': want, 'name': nm, 'on': 'another object' if how == 'other_eval' else 'the same object'})
             elif how == 'toggle_strict' and e is None:
